@@ -225,6 +225,7 @@ let c_block_of_obs line = match toks line with
   | ["P"; t] -> "Para " ^ q (unhex t)
   | ["B"; t] -> "Bullet " ^ q (unhex t)
   | ["R"] -> "Rule"
+  | ["L"] -> "LF"
   | "T" :: nc_ :: rest ->
     let rec take k l acc = if k = 0 then (List.rev acc, l) else match l with x :: r -> take (k - 1) r (x :: acc) | [] -> failwith "T" in
     let hdr, rest = take (int_of_string nc_) rest [] in
@@ -244,6 +245,7 @@ let show_block = function
   | Para t -> "P " ^ hx (implode t)
   | Bullet t -> "B " ^ hx (implode t)
   | Rule -> "R"
+  | LF -> "L"
   | Table (h, rows) ->
     let b = Buffer.create 64 in
     Buffer.add_string b (Printf.sprintf "T %d" (List.length h));
@@ -291,6 +293,11 @@ let show_dbc (evs : ev list) : string =
                                         ^ String.concat "," (List.map (fun (f, t) -> zs f ^ "-" ^ zs t) rs))
       | _ -> None) evs in
   String.concat " " (nodes @ ["|"] @ labs @ ["|"] @ msgs @ ["|"] @ defs @ ["|"] @ asg @ ["|"] @ coms @ ["|"] @ encs @ ["|"] @ exts)
+
+(* a paragraph with line breaks is rendered as one line per text line *)
+let show_lines b = match b with
+  | Para t -> List.map (fun l -> "P " ^ hx l) (String.split_on_char '\n' (implode t))
+  | _ -> [show_block b]
 
 let readable line =
   String.concat " " (List.map (fun t -> if String.length t > 0 && t.[0] = 'x' && String.length t mod 2 = 1
@@ -350,7 +357,7 @@ let () =
        List.iter (fun (oname, o) ->
            (* Markdown *)
            let model = md_raw o net in
-           let model_lines = List.map show_block (blocks (to_net (walk o net))) in
+           let model_lines = List.concat_map show_lines (blocks (to_net (walk o net))) in
            let model_err = (match model with Ok _ -> false | Err -> true) in
            if model_err <> obs_err then report "md" (Printf.sprintf "oracle %s: error result differs (impl %b, model %b)" oname obs_err model_err)
            else if observed <> model_lines then begin
